@@ -158,8 +158,83 @@ pub fn small_scope() -> Vec<Case> {
     out
 }
 
+#[derive(Clone, Debug, Serialize, Deserialize)]
+pub struct LongCase {
+    pub fi: usize,
+    pub v: ND,
+    /// which boundary gets the run (index into the token boundaries, cyclic)
+    pub boundary: usize,
+    /// length of the run
+    pub n: usize,
+}
+
+/// "any number of spaces": one boundary gets a run of 1 000 … 100 000 blanks. The parsers are
+/// called on a thread with the platform's default stack (what a caller who spawns a thread
+/// gets), because the amount of white space must not matter for that either.
+pub fn check_long(sh: &Shared, c: &LongCase) -> Check {
+    let fi = c.fi.min(2);
+    let v = build_n(&c.v);
+    let expected = canon_nd(&c.v);
+    match guard(|| printer::gate(fi, &v)) {
+        Ok(true) => {}
+        _ => {
+            sh.class("inconclusive/printer-desync");
+            return Ok(());
+        }
+    }
+    let (toks, _) = printer::tokens(fi, &v, Style::Plain, &[]);
+    let b = c.boundary % (toks.len() + 1);
+    let n = c.n.min(200_000);
+    let mut gaps = vec![String::new(); toks.len() + 1];
+    gaps[b] = " ".repeat(n);
+    let w = printer::join_with(&toks, &gaps);
+    gaps[b] = "\u{3000}\t".repeat(n / 2);
+    let wl = printer::join_with(&toks, &gaps);
+    sh.evals(3);
+    sh.nontrivial(fp(&(fi, &c.v, b, n)));
+    sh.class(&format!("run-length/{}", if n >= 50_000 { "50000+" } else if n >= 10_000 { "10000+" } else { "1000+" }));
+    sh.sample(&format!("long-run/{}", fmts::FMT_NAMES[fi]), || json!({"format": fmts::FMT_NAMES[fi], "blanks": n, "boundary": b, "tokens": toks.len()}));
+    let (e, l, lu) = std::thread::scope(|s| {
+        std::thread::Builder::new().spawn_scoped(s, || (enum_parse(fi, &w), lexical_fold(fi, &w), lexical_fold(fi, &wl))).unwrap().join().unwrap()
+    });
+    let short = |t: &str| format!("{} … ({} chars, {n} blanks at boundary {b})", t.chars().filter(|c| !c.is_whitespace()).take(60).collect::<String>(), t.chars().count());
+    expect("enum-long-run", "enum parser, one long run of spaces", &short(&w), &e, &expected)?;
+    expect("lexical-long-run", "lexical parse + fold, one long run of spaces", &short(&w), &l, &expected)?;
+    expect("lexical-long-run", "lexical parse + fold, one long run of Unicode blanks", &short(&wl), &lu, &expected)?;
+    Ok(())
+}
+
+pub fn long_runs() -> Vec<LongCase> {
+    let term = D::node(Inh, vec![D::node(Product, vec![D::word("a"), D::atom(IVar, "x")]), D::node(SetExt, vec![D::word("b")])]);
+    let values = vec![
+        ND::Term(term.clone()),
+        ND::Task(TD { budget: vec![F::of(0.5), F::of(0.75)], s: SD { term: term.clone(), punct: P::Judgement, stamp: St::Fixed(-5), truth: vec![F::of(1.0), F::of(0.9)] } }),
+    ];
+    let mut out = vec![];
+    for fi in 0..3usize {
+        for v in &values {
+            // every boundary with a moderate run, a few boundaries with the long ones
+            for b in 0..40usize {
+                out.push(LongCase { fi, v: v.clone(), boundary: b, n: 1_000 });
+            }
+            for b in [0usize, 1, 2, 5, 9, 12, 17, 23] {
+                out.push(LongCase { fi, v: v.clone(), boundary: b, n: 30_000 });
+                out.push(LongCase { fi, v: v.clone(), boundary: b, n: 100_000 });
+            }
+        }
+    }
+    out
+}
+
 pub fn streams() -> Vec<Box<dyn AnyStream>> {
     vec![
+        Box::new(Stream::<LongCase> {
+            name: "long-runs",
+            quick: 0,
+            thorough: 0,
+            source: Source::Enum(Box::new(|_| Box::new(long_runs().into_iter()))),
+            check: Box::new(check_long),
+        }),
         Box::new(Stream::<Case> {
             name: "small-scope",
             quick: 0,
